@@ -224,3 +224,22 @@ Proof.
 Qed.
 
 (** With [hist_ok] the statement is part of [inv_reachable_expanded]. *)
+
+(** * DECLINE under probing: the replacement address does not answer the probe *)
+Theorem decline_not_busy c s now busy mac reqip ci s' mt yi :
+  Inv c s -> mac_len mac = 6 ->
+  decline c now busy mac reqip ci s = (s', ROk mt yi) -> yi <> 0 -> mem_ip yi busy = false.
+Proof.
+  intros I Hlen. unfold decline.
+  destruct (find_index _ (leases s)) as [[oi old]|] eqn:Ef; [|intros H; inversion H; subst; congruence].
+  apply find_index_some in Ef as [_ Ep]. apply andb_true_iff in Ep as [Em _]. apply N.eqb_eq in Em.
+  pose proof (rm_dynamic_lease_inv c (l_mac old) (l_ip old) (l_host old) s I) as I1.
+  pose proof (rm_dynamic_lease_clears c (l_mac old) (l_ip old) (l_host old) s) as C1.
+  destruct (rm_dynamic_lease c (l_mac old) (l_ip old) (l_host old) s) as [s1 e].
+  destruct e; [intros H; inversion H|]. cbn [fst snd] in *.
+  destruct (C1 eq_refl) as [Cm _]. rewrite Em in Cm.
+  pose proof (allocate_at c now busy mac (alloc_fuel c s1) s1 I1 Hlen (not_in_cmacs _ _ Cm)) as R.
+  destruct (allocate _ c now busy mac s1) as [s2 r]; cbn [fst snd] in *.
+  destruct r; intros H; inversion H; subst; try congruence.
+  intros _. destruct (R _ eq_refl) as (l & El & _ & _ & Eb). unfold ip_at. rewrite El. exact Eb.
+Qed.
